@@ -396,7 +396,7 @@ func TestC13SmallPool(t *testing.T) {
 		cli := w.Peer(erpc.PeerConfig{RedialTimes: int32(budget), RedialInterval: 3 * time.Millisecond}, dr)
 		sess, stat := cli.Dial(ts.addr)
 		if !stat.OK() {
-			t.Fatalf("harness: Dial: %v", stat)
+			t.Skip("harness: the first dial failed (no local port?): " + stat.String())
 		}
 		sess.SetID("user-id")
 		okCall := func(tag string) {
@@ -461,6 +461,11 @@ func TestC13SmallPool(t *testing.T) {
 				t.Fatalf("C13 violated: close notification fired although the redial succeeded")
 			default:
 			}
+		}
+		// the client goes first: a redial-enabled session whose server is taken away under it
+		// would go on redialing (and dial whoever gets the port next) after the case
+		if !vt.Returns(func() { sess.Close() }) {
+			t.Fatalf("C13 violated: %s", vt.Hang("return of Close on the re-established session"))
 		}
 		rec.Case(fmt.Sprintf("%d|%d|%v|%d", pool, losses, hold, budget), exhaustedAtRedial > 0, fmt.Sprintf("exhausted_at_redial=%d", exhaustedAtRedial))
 		if rec.WantSample() && exhaustedAtRedial > 0 {
